@@ -19,11 +19,13 @@ import (
 	"time"
 
 	. "gopkg.in/check.v1"
+	"gopkg.in/tomb.v2"
 
 	kit "verifkit"
 
 	"github.com/snapcore/snapd/dirs"
 	"github.com/snapcore/snapd/overlord/configstate/config"
+	"github.com/snapcore/snapd/overlord/hookstate"
 	"github.com/snapcore/snapd/overlord/snapstate"
 	"github.com/snapcore/snapd/overlord/state"
 	"github.com/snapcore/snapd/snap"
@@ -574,6 +576,30 @@ func (s *verifC1011Suite) runHistory(c *C, chk *kit.Check, prop string, hi int, 
 	}
 	var history []opSpec
 	abandoned := false
+	// in two of three histories the configure / install / post-refresh hooks of
+	// the snap write to its configuration, as real hooks do through snapctl (the
+	// package's fake run-hook handler does nothing): a failed change has to put
+	// the configuration back, a failed first install has to leave none
+	hooksWrite := hi%3 != 2
+	s.o.TaskRunner().AddHandler("run-hook", func(t *state.Task, _ *tomb.Tomb) error {
+		if !hooksWrite {
+			return nil
+		}
+		st.Lock()
+		defer st.Unlock()
+		var hooksup hookstate.HookSetup
+		if err := t.Get("hook-setup", &hooksup); err != nil {
+			return nil
+		}
+		switch hooksup.Hook {
+		case "configure", "install", "post-refresh":
+			tr := config.NewTransaction(st)
+			tr.Set(hooksup.Snap, "set-by-"+hooksup.Hook+"-hook", "task-"+t.ID())
+			tr.Commit()
+			chk.Count("hook_config_writes", 1)
+		}
+		return nil
+	}, nil)
 	// (no fakeBackend.addSnapApp here: it makes ReadInfo hand out one shared
 	// *snap.Info per snap whose SideInfo is overwritten by every later call, so a
 	// refresh to a kept revision would silently target the current one)
